@@ -233,6 +233,19 @@ func (x *c20Run) snap() c20Snap {
 		sn.user = append(sn.user, bal(u))
 	}
 	ns, np := x.maxIds(ctx)
+	// every pending order's id must be below the next-id counter (or the next create would reuse a live id and its escrow account)
+	for _, o := range sn.spot {
+		if o.OrderId >= ns {
+			x.fail("C20:pending-order-id-not-below-counter", fmt.Sprintf("pending spot order %d although the next id to be issued is %d", o.OrderId, ns))
+			ns = o.OrderId + 1
+		}
+	}
+	for _, o := range sn.perp {
+		if o.OrderId >= np {
+			x.fail("C20:pending-order-id-not-below-counter", fmt.Sprintf("pending perpetual order %d although the next id to be issued is %d", o.OrderId, np))
+			np = o.OrderId + 1
+		}
+	}
 	for id := uint64(1); id < ns; id++ {
 		sn.esc[[2]int{0, int(id)}] = bal(tstypes.GetSpotOrderAddress(id))
 	}
@@ -284,6 +297,14 @@ func c20SameBal(a, b []sdkmath.Int) bool {
 		}
 	}
 	return true
+}
+
+// escrow balance of order k in denom d; an account that is not in the snapshot (id at or above the counter, not pending) counts as empty
+func c20EscAt(sn c20Snap, k [2]int, d int) sdkmath.Int {
+	if v, ok := sn.esc[k]; ok && d < len(v) {
+		return v[d]
+	}
+	return sdkmath.ZeroInt()
 }
 
 func (x *c20Run) same(a, b c20Snap) bool {
@@ -1054,12 +1075,12 @@ func (x *c20Run) exec(op c20Op) {
 				ui := x.uidx[owner] - 1
 				for d := range c20Denoms {
 					got := after.user[ui][d].Sub(before.user[ui][d])
-					left := before.esc[k][d].Sub(after.esc[k][d])
+					left := c20EscAt(before, k, d).Sub(c20EscAt(after, k, d))
 					if !got.Equal(left) || got.IsNegative() {
 						x.fail("C20:cancel-not-full", fmt.Sprintf("cancel of order %d: owner received %s %s, escrow released %s", tg.id, got, c20Denoms[d], left))
 					}
-					if c20Denoms[d] == oden && (got.LT(oamt) && before.esc[k][d].GTE(oamt) || (!tg.perp && !after.esc[k][d].IsZero())) {
-						x.fail("C20:cancel-not-full", fmt.Sprintf("cancel of order %d: owner received %s of the %s %s escrowed, %s left behind", tg.id, got, oamt, oden, after.esc[k][d]))
+					if c20Denoms[d] == oden && (got.LT(oamt) && c20EscAt(before, k, d).GTE(oamt) || (!tg.perp && !c20EscAt(after, k, d).IsZero())) {
+						x.fail("C20:cancel-not-full", fmt.Sprintf("cancel of order %d: owner received %s of the %s %s escrowed, %s left behind", tg.id, got, oamt, oden, c20EscAt(after, k, d)))
 					}
 				}
 			}
